@@ -328,6 +328,10 @@ class G:
             p = tuple(p)
             if any(q[: len(p)] == p or p[: len(q)] == q for q, _ in ((tuple(x[0]), 0) for x in c)):
                 continue      # a value and a sub-map at one address cannot be merged
+            sp = tuple(k for k in p if isinstance(k, str))
+            if any(sq != sp and (sq[: len(sp)] == sp or sp[: len(sq)] == sq)
+                   for sq in (tuple(k for k in x[0] if isinstance(k, str)) for x in c)):
+                continue      # … nor across the elements of a vector combinator (stacked constraints)
             if r.random() < cov:
                 v = r.randint(0, 3)
                 if r.random() < masked:
